@@ -14,7 +14,7 @@ COMMON_ASSUMPTIONS = [
 ]
 
 prop("C20",
-     ["RL1", "RL2", "RL4", "RL5", "RL6", "RL7", "RL8"],
+     ["RL1", "RL2", "RL4", "RL5", "RL6", "RL7", "RL8", "ST2"],
      "Static resource-lifecycle analysis over statement-level CFGs with exceptional edges: who may open()/close(), "
      "pairing of handle and owner fields, release on every normal and exceptional exit of eager construction per "
      "public entry point, completeness and idempotence of close(), use-after-close guard dominance, acquisition safety.",
@@ -42,13 +42,13 @@ prop("C05",
      COMMON_ASSUMPTIONS)
 
 prop("C02",
-     ["OW1", "OW2", "HD1", "RJ1"],
+     ["OW1", "OW2", "HD1", "RJ1", "OW4", "IN1"],
      "The inheritance mechanism is a sharing discipline: object lists and segment objects are shared between segments. Decided: "
      "(OW1) every store to a segment object's slots goes through an object created in the same activation (alias analysis; who-may-write), "
      "(OW2) typestate of self.ordered_objects: mutated only after a fresh copy, helpers called only from the parser, shared index "
      "dictionaries read-only, cache-key equality ordered and pairwise, (HD1) for each header kind x previous has_data value the object "
      "left in the list has the has_data the header demands (path-sensitive abstract interpretation), (RJ1) the three forbidden "
-     "encodings raise.",
+     "encodings raise, (IN1) the previous segment's list and index are read only on paths closed to a segment with a new object list, (OW4) per-segment memo fields (chunk size and the like) have a single writer and are never inherited.",
      ["that the carried-over index values are the right ones for arbitrary histories", "lengths and data values"],
      COMMON_ASSUMPTIONS)
 
@@ -61,49 +61,53 @@ prop("C13",
      COMMON_ASSUMPTIONS)
 
 prop("C14",
-     ["DT1", "DT2", "DT3", "DT4", "LN1"],
+     ["DT1", "DT2", "DT3", "DT4", "LN1", "NK2"],
      "Abstract dtype interpretation of every scale method over dtype witnesses (zero-length arrays, Python-scalar coefficients; NumPy as "
      "oracle of its own promotion rules) against the table read from MultiScaling._compute_scale_dtype, for every scaling class x real "
      "numeric raw dtype (thorough: both byte orders, NumPy-scalar coefficients, all Add/Subtract pairs); dtype source of every empty "
      "result per accessor kind; raw dtype table vs receivers; native byte-order normalisation where raw arrays are created; single "
-     "funnel for value counts.",
+     "funnel for value counts; the timestamp conversion is EPOCH + seconds + fractions * one unit of the requested resolution on every path "
+     "(so its dtype is not data dependent).",
      ["that len() equals the number of values actually decoded for arbitrary files (run-time)",
       "complex and boolean raw types under scaling", "raw_timestamps=True (exempt by the property)"],
      COMMON_ASSUMPTIONS + ["scaling coefficients read from a file are Python scalars (StructType.read returns struct.unpack results)"])
 
 prop("C08",
-     ["BL5", "BL6", "PO1", "WT1", "BL2"],
+     ["BL5", "BL6", "PO1", "WT1", "BL2", "NT1"],
      "Every clause is an agreement between a length field and the bytes behind it, i.e. between two expressions in the writer: string "
      "length prefix, raw-data-index length per path (k == 4 + sum of field sizes), lead-in offsets (metadata_size + data size, measured on "
      "the list that is written, written in order), declared data size vs written data (same object predicate, same string encoding, 4-byte "
      "offsets), index twin (is_index_file influences only the tag and the raw-data guard; same objects/version; own stream), parents-first "
-     "ordering and written-state updated only after the writes, ToC flags.",
+     "ordering and written-state updated only after the writes, ToC flags, path components never tested by truthiness (an empty name is a name).",
      ["objects that do not follow the TdmsObject protocol (path, properties, data)"],
      COMMON_ASSUMPTIONS)
 
 prop("C01",
-     ["TD1", "BL1", "BL2", "BL3", "PR1", "GR1", "UD1"],
+     ["TD1", "BL1", "BL2", "BL3", "PR1", "GR1", "UD1", "OW4", "NK2"],
      "Type x layout dispatch exhaustiveness over the 17 admitted channel types and every decoder branch; every fixed-size record "
      "unpacked with a format of exactly the size read; type-table consistency; byte-order threading; insertion-ordered containers "
      "filled in file order with last-value-wins properties and once-per-segment updates; groups never replaced during the object "
-     "walk; strings cut at byte offsets before decoding.",
+     "walk; strings cut at byte offsets before decoding; per-segment memo fields single-writer; the array and the scalar timestamp "
+     "conversion are the same computation (no reinterpretation that drops the field's byte order).",
      ["bit-exact values", "chunk-count arithmetic (_calculate_chunks)", "concatenation order across chunks"],
      COMMON_ASSUMPTIONS)
 
 prop("C03",
-     ["MP1", "MP3", "TS1", "OFS1", "LN1", "BL3", "BL4"],
+     ["MP1", "MP3", "TS1", "OFS1", "LN1", "BL3", "BL4", "CE1", "IN1"],
      "One timestamp-representation switch on every reader->user path; scaling applied exactly once by scaled accessors and never by raw "
      "ones, sibling three-way decisions agree; a channel without data type never reaches the reader in eager mode; chunk offsets are "
-     "snapshots of the running count; one funnel for value counts; byte order and timestamp layout threaded on every decoder path.",
+     "snapshots of the running count; one funnel for value counts; byte order and timestamp layout threaded on every decoder path; "
+     "the per-channel offset arrays the lazy paths index with are shared only after an element-complete comparison.",
      ["equality of values across access paths for arbitrary files", "memmap equivalence", "integer/slice accesses of zero-length channels"],
      COMMON_ASSUMPTIONS)
 
 prop("C04",
-     ["CS1", "ES1", "CS2", "NT1", "BD1", "CE1"],
+     ["CS1", "ES1", "CS2", "NT1", "BD1", "CE1", "OW2"],
      "Shape conditions of the window arithmetic only: positional loop counters advanced on every path (continue included), segment numbering "
      "starts at the window's first segment with first/last-segment adjustments present, data and scaler arrays sliced alike, optional "
      "arguments tested with `is None`, chunk offset/count passed to the segment reader depend on the window start/end with truncated-final-chunk "
-     "awareness, offset arrays shared only after an element-complete comparison.",
+     "awareness, offset arrays shared only after an element-complete comparison, path->position dictionaries shared only between object "
+     "lists that are equal in order (cache key compared pairwise).",
      ["that _read_slice equals NumPy slicing", "searchsorted side choices", "the skip/trim arithmetic itself"],
      COMMON_ASSUMPTIONS)
 
@@ -117,32 +121,34 @@ prop("C09",
      COMMON_ASSUMPTIONS)
 
 prop("C10",
-     ["KC1", "TD2", "TS1", "BL4", "BL5", "BL6"],
+     ["KC1", "TD2", "TS1", "BL4", "BL5", "BL6", "TW1"],
      "Call-site constants and role pairing of defragment (raw timestamps, raw data, names/properties of the same object, unfiltered loop "
      "nest with every group and channel written), writer dispatch totality for every type the writer can choose (Void excluded from size "
-     "arithmetic), no-type channels never reach the closed reader, raw timestamp layout, declared sizes equal written sizes, faithful index twin.",
+     "arithmetic), no-type channels never reach the closed reader, raw timestamp layout, declared sizes equal written sizes, faithful index twin, "
+     "no lossy datetime64 conversion of raw timestamp records on the writer side.",
      ["bit-identity of values and properties for arbitrary files"],
      COMMON_ASSUMPTIONS)
 
 prop("C19",
-     ["CG1", "GD1", "BD1", "CH1"],
+     ["CG1", "GD1", "BD1", "CH1", "NT1", "ST2"],
      "Code shape is seek-and-read-a-window, not read-everything-and-trim: whole-file/segment readers unreachable from per-channel entry points; "
      "contiguous per-channel reader reads only under the path test and skips others arithmetically; segment slice, chunk offset and chunk "
-     "count depend on the request; cache hit test two-sided on the normalised index; constant 4-byte tag read per segment.",
+     "count depend on the request (a count of 0 chunks is tested with `is None`, not by truthiness); cache hit test two-sided on the "
+     "normalised index; constant 4-byte tag read per segment; a caller's stream is read directly, not through a read-ahead wrapper.",
      ["the actual byte ranges", "minimality of the window"],
      COMMON_ASSUMPTIONS)
 
 prop("C07",
-     ["DTA", "IS1", "NK1", "BL4", "BL2", "BL5", "WT1", "UC1", "UD1"],
+     ["DTA", "IS1", "NK1", "BL4", "BL2", "BL5", "WT1", "UC1", "UD1", "PT1", "PT3"],
      "Places where writer and reader must agree on a table, threshold or layout: decision-table analysis of the integer type thresholds "
      "(every cell of the partition induced by the constants), isinstance dispatch order and mapping, exact-integer timestamp fields not routed "
      "through float64 beyond 2**53 (interval analysis), timestamp layout siblings, injective type tables, length fields, ToC flags, one codec, "
-     "strings decoded per value.",
+     "strings decoded per value, object names through the quote-doubling encoder and its scanner on both sides.",
      ["equality of arrays and property values", "append-mode sessions", "np.array(list) dtype inference beyond the integer table"],
      COMMON_ASSUMPTIONS)
 
 prop("C12",
-     ["NK1", "NK2", "TBf", "BL4", "TT1"],
+     ["NK1", "NK2", "TBf", "BL4", "TT1", "TW1"],
      "Encoder arithmetic interval analysis (float64 beyond 2**53), scalar/array conversion siblings normalised and compared, fraction "
      "constants and epochs folded and compared exactly, timestamp layout siblings, absolute time track derived from the relative one.",
      ["'within one unit' and monotonicity of the float conversion (numerical)", "time_track values"],
